@@ -98,7 +98,8 @@ Fixpoint run (fuel : nat) (c : cmd) (p : renv) (ds : list nat) : res :=
     | Skip => Done p [] ONorm ds
     | Bind d x => Done (upd p x (Some d)) [] ONorm ds
     | Read r x => Done p [(r, p x)] ONorm ds
-    | Return => Done p [] ORet ds
+    | Exit KRet => Done p [] ORet ds
+    | Exit _ => OutOfFuel                        (* break/continue/raise: see Model/SemX.v *)
     | Seq a b =>
         bind_res (run fuel a p ds) (fun p1 t1 o1 ds1 =>
           match o1 with
